@@ -736,6 +736,46 @@ Theorem C09_owner_key_injective : forall o1 o2 s a,
   owner_key o1 s a = owner_key o2 s a -> o1 = o2.
 Proof. exact owner_key_inj. Qed.
 
+(* ---- accesses made from inside the framework's loop functions ---------- *)
+
+(* Vocabulary (Model 13d): MagicRobot runs the user's code location by
+   location -- one PASS of the control loop is teleopPeriodic(), then every
+   component's execute() (_enabled_periodic), then the @feedback getters and
+   periodic methods (_do_periodics); a pass is the list of its locations, a
+   location the list of operations performed there (reads / writes of any
+   component's tunables, dashboard updates that arrive meanwhile, the clock
+   moving on); [loop_history passes] is the history: their concatenation. *)
+
+(* C09's read clause for an attribute read made from ANY place of ANY pass:
+   it gives the most recent write to its key among everything that happened
+   before it -- in earlier passes, in the earlier locations of this pass
+   (another component's execute(), a dashboard update that arrived after the
+   pass had started), earlier in the same function -- else what it read at the
+   start.  In particular an assignment made late in a pass is not lost to a
+   dashboard update that arrived earlier in that pass. *)
+Theorem C09_read_latest_inside_a_pass : forall g before locs1 ops1 i a ops2 locs2 after b k ty d,
+  (forall k', (stamp_get (g_stamps g) k' <= g_now g)%Z) ->
+  forallb gop_timely
+    (loop_history (before ++ [locs1 ++ (ops1 ++ GX (XOp (PyRead i a)) :: ops2) :: locs2] ++ after)%list) = true ->
+  no_setup (erase (gerase (g_classes g) (loop_history before ++ concat locs1 ++ ops1)%list)) = true ->
+  inst_get (w_inst (x_w (g_x g))) i = Some b -> bind_get b a = Some (k, ty, d) ->
+  nth (length (gerase (g_classes g) (loop_history before ++ concat locs1 ++ ops1)%list))
+      (gevents (snd (grun g (loop_history
+         (before ++ [locs1 ++ (ops1 ++ GX (XOp (PyRead i a)) :: ops2) :: locs2] ++ after)%list)))) XDone =
+  XEv (match last_write (x_w (g_x g))
+               (erase (gerase (g_classes g) (loop_history before ++ concat locs1 ++ ops1)%list)) k with
+       | Some v => EvVal v
+       | None => py_read (x_w (g_x g)) i a
+       end).
+Proof. exact read_latest_inside_a_pass. Qed.
+
+(* whatever framework function an access is made from, it is an access like
+   any other: regrouping the same operations into other passes / locations
+   changes no topic, no binding, no event *)
+Theorem C09_loop_structure_irrelevant : forall g p1 p2,
+  loop_history p1 = loop_history p2 -> grun g (loop_history p1) = grun g (loop_history p2).
+Proof. exact loop_structure_irrelevant. Qed.
+
 (* ---- non-vacuity ----------------------------------------------------- *)
 
 Definition ex_cls : list decl :=
@@ -1143,6 +1183,59 @@ Example C09_nv_structured_subtable :
   "/pid" <> "" /\ "left" <> "right".
 Proof. vm_compute. repeat split; try reflexivity; discriminate. Qed.
 
+(* the loop: robotInit binds shooter.level (0); pass 1: shooter.execute()
+   assigns 1 and reads 1; pass 2 starts, 5 ms later the dashboard sets 7 from
+   the intake's execute(), the shooter's execute() reads 7, assigns 9, reads 9,
+   its @feedback getter reads 9; between the passes the dashboard sets 11, the
+   component assigns 12 -- every read gives the latest value, every write is
+   accepted; the hypotheses of C09_read_latest_inside_a_pass hold for the read
+   after `level = 9` *)
+Definition ex_level : decl := mkdecl "level" (VScalar (SInt 0)) None None true.
+Definition ex_lvl (z : Z) : value := VScalar (SInt z).
+Definition ex_lkey : string := "/components/shooter/level".
+Definition ex_passes : list (list (list gop)) :=
+  [ [ [GX (XOp (PyWrite 0 "level" (ex_lvl 1))); GX (XOp (PyRead 0 "level"))] ];
+    [ [GTick 5000; GX (XOp (NtWrite ex_lkey NInteger (ex_lvl 7)))];
+      [GX (XOp (PyRead 0 "level")); GX (XOp (PyWrite 0 "level" (ex_lvl 9))); GX (XOp (PyRead 0 "level"))];
+      [GX (XOp (PyRead 0 "level"))] ];
+    [ [GTick 20000; GX (XOp (NtWrite ex_lkey NInteger (ex_lvl 11))); GX (XOp (PyRead 0 "level"));
+       GX (XOp (PyWrite 0 "level" (ex_lvl 12))); GX (XOp (PyRead 0 "level")); GX (XOp (NtRead ex_lkey))] ] ].
+Example C09_nv_loop :
+  let g := fst (fst (gstep (g0 1000 [[[MTun ex_level]]]) (GSetupOf 0 0 (Some "components") "shooter"))) in
+  snd (grun g (loop_history ex_passes)) =
+  [ (GEv (XEv EvWrote), true); (GEv (XEv (EvVal (ex_lvl 1))), true);
+    (GDone, true); (GEv (XEv EvWrote), true);
+    (GEv (XEv (EvVal (ex_lvl 7))), true); (GEv (XEv EvWrote), true); (GEv (XEv (EvVal (ex_lvl 9))), true);
+    (GEv (XEv (EvVal (ex_lvl 9))), true);
+    (GDone, true); (GEv (XEv EvWrote), true); (GEv (XEv (EvVal (ex_lvl 11))), true);
+    (GEv (XEv EvWrote), true); (GEv (XEv (EvVal (ex_lvl 12))), true);
+    (GEv (XEv (EvNt (Some (NInteger, ex_lvl 12)))), true) ] /\
+  forallb gop_timely (loop_history ex_passes) = true /\
+  (forall k, (stamp_get (g_stamps g) k <= g_now g)%Z) /\
+  inst_get (w_inst (x_w (g_x g))) 0 = Some [("level", (ex_lkey, NInteger, ex_lvl 0))] /\
+  (* the read after `level = 9`: before = pass 1, locs1 = the intake's execute(), ops1 = read; assign *)
+  loop_history ex_passes =
+    loop_history ([nth 0 ex_passes []] ++
+                  [[nth 0 (nth 1 ex_passes []) []] ++
+                   ([GX (XOp (PyRead 0 "level")); GX (XOp (PyWrite 0 "level" (ex_lvl 9)))] ++
+                    GX (XOp (PyRead 0 "level")) :: []) :: [nth 2 (nth 1 ex_passes []) []]] ++
+                  [nth 2 ex_passes []])%list /\
+  last_write (x_w (g_x g))
+    (erase (gerase (g_classes g)
+       (loop_history [nth 0 ex_passes []] ++ concat [nth 0 (nth 1 ex_passes []) []] ++
+        [GX (XOp (PyRead 0 "level")); GX (XOp (PyWrite 0 "level" (ex_lvl 9)))])%list)) ex_lkey = Some (ex_lvl 9) /\
+  (* a write stamped with the time the pass STARTED, after the dashboard's later update, would be dropped *)
+  snd (grun g [GTick 5000; GX (XOp (NtWrite ex_lkey NInteger (ex_lvl 7)));
+               GNtWriteAt ex_lkey NInteger (ex_lvl 9) (SAt 1000); GX (XOp (PyRead 0 "level"))]) =
+  [ (GDone, true); (GEv (XEv EvWrote), true); (GEv (XEv EvWrote), false); (GEv (XEv (EvVal (ex_lvl 7))), true) ].
+Proof.
+  cbv zeta. repeat split; try (vm_compute; reflexivity).
+  intros k.
+  replace (g_stamps _) with [(ex_lkey, 1000%Z)] by (vm_compute; reflexivity).
+  replace (g_now _) with 1000%Z by (vm_compute; reflexivity).
+  cbn [stamp_get]. destruct (String.eqb ex_lkey k); apply Z.leb_le; reflexivity.
+Qed.
+
 Print Assumptions C09_key.
 Print Assumptions C09_setup_binds_key.
 Print Assumptions C09_attr_write_reaches_topic.
@@ -1208,3 +1301,5 @@ Print Assumptions C09_key_verbatim.
 Print Assumptions C09_key_injective_in_name.
 Print Assumptions C09_other_name_other_topic.
 Print Assumptions C09_owner_key_injective.
+Print Assumptions C09_read_latest_inside_a_pass.
+Print Assumptions C09_loop_structure_irrelevant.
